@@ -235,6 +235,7 @@ type stubSpec struct {
 	outs   []string
 	hasErr bool
 	custom string // Go source of a custom native body (block contents), instead of the generated one
+	set    string // the stub set that enables it
 }
 
 func (e *Engine) stub(set, name string, spec *stubSpec, f intrinsic) {
@@ -282,6 +283,7 @@ func (e *Engine) stub(set, name string, spec *stubSpec, f intrinsic) {
 	}
 	if spec != nil {
 		spec.name = name
+		spec.set = set
 		e.nativeStubs[name] = spec
 	}
 }
